@@ -2,7 +2,7 @@
 
 MODULE = "DtailModel.Props.C02"
 # scripts with real waits: a disagreement counts only if it reproduces when re-run alone (flake policy, DESIGN 2.3)
-TIMED_OPS = ("c02.session", "c02.e2e", "c02.many", "c02.eofstall")
+TIMED_OPS = ("c02.session", "c02.e2e", "c02.many", "c02.eofstall", "c02.bad")
 GROUPS = ["C02"]
 BINS = True
 LOGGER = "none"
@@ -14,7 +14,7 @@ LEVEL_TEXT = ("Lean theorems over every schedule of the session LTS (commands, b
               "C02_partial (at close every line of every dispatched command has been delivered, provided no command was dispatched after the "
               "session had gone idle), C02_syn_after_lines, C02_full_false (the idle-between-commands witness); tied to the code by scripted "
               "sessions on the real ServerHandler (the harness is the consumer: reads, stalls, sends commands) replayed on the LTS, and by the "
-              "real dcat binary with a throttled stdout, serverless and over SSH; C02_every_schedule_is_finite (every step decreases a measure: at most 2·lines + 2·commands + 3 steps under any schedule) and C02_ends_by_itself (an execution that cannot be continued is the closed session); further end-to-end ops: c02.many (hundreds of files in one session), c02.eofstall (the consumer stalls for 7 s exactly at the end of the file)")
+              "real dcat binary with a throttled stdout, serverless and over SSH; C02_every_schedule_is_finite (every step decreases a measure: at most 2·lines + 2·commands + 3 steps under any schedule) and C02_ends_by_itself (an execution that cannot be continued is the closed session); further end-to-end ops: c02.many (hundreds of files in one session), c02.eofstall (the consumer stalls for 7 s exactly at the end of the file), c02.bad (files the reader cannot start on between a held-back file and files queued behind the cat limit)")
 TRUSTED = ["Lean 4 kernel", "axioms: propext, Quot.sound, Classical.choice (at most)", "fact extractor (queue capacity, canSkipLines of the cat reader)",
            "overlay harness + dtmodel driver + this diff",
            "modelled not verified: goroutine scheduling and real time (the labels; the 10 ms flush polls are the flushDone label), Go channel semantics, "
@@ -61,6 +61,13 @@ def gen(rng, budget, tier):
             k = rng.randrange(0, total + 1)
             ops += [f"R{k}", f"T{rng.choice([50, 150, 300])}", "E"]
         yield f"c02.session {rng.choice([1, 2, 3])} {'+'.join(map(str, sizes))} {','.join(ops)}"
+    # files the reader cannot start on (named *.gz, not gzip data) between a held-back first file and files queued
+    # behind the cat limit (added last: earlier streams keep their cases)
+    yield f"c02.bad serverless 2 4 6000 800"
+    yield f"c02.bad serverless {rng.choice([1, 3])} {rng.choice([2, 5])} 6000 500"
+    if tier == "thorough":
+        yield "c02.bad ssh 2 4 6000 1500"
+        yield "c02.bad serverless 5 8 9000 1500"
 
 
 def model_case(case, impl):
@@ -73,4 +80,5 @@ def impl_view(case, impl):
 
 def batches(cases):
     # the many-files runs load the machine (hundreds of files, MB of output): not next to the timed session scripts
-    return [[c for c in cases if not c.startswith("c02.many")], [c for c in cases if c.startswith("c02.many")]]
+    heavy = ("c02.many", "c02.bad")
+    return [[c for c in cases if not c.startswith(heavy)], [c for c in cases if c.startswith(heavy)]]
